@@ -322,7 +322,7 @@ def main():
     rac.section("attribute-mode+assignments", "the same grammar with elements accessed as ATTRIBUTES (get='attr'), and assignment sentences "
                 "`name = expression` evaluated deferred (they define the variable through the manager): the stored values follow every later "
                 "change of a variable or of an element attribute made through the manager with plain keys, and equal immediate evaluation",
-                "6 expressions x 2 ways of defining x 4 changes, chains of two assignments")
+                "6 expressions x 2 ways of defining x 7 changes (incl. an element replaced as a whole), chains of two assignments")
     ATTR_SRC = """
 import math, xdeps
 from xdeps.madxutils import MadxEval
@@ -337,11 +337,13 @@ def mkattr():
 """
     aenv = {}
     exec(ATTR_SRC, aenv)
-    achanges = ["vr['a'] = 4.0", "er['q1'].k1 = 1.0", "er['m.b'].angle = 0.75", "vr['b'] = 0.5"]
+    # (the last two: an element REPLACED as a whole through the manager after the expression has been evaluated, then changed again)
+    achanges = ["vr['a'] = 4.0", "er['q1'].k1 = 1.0", "er['m.b'].angle = 0.75", "vr['b'] = 0.5", "er['q1'] = El(k1=3.0, l=0.25)", "er['q1'].k1 = -1.5",
+                "er['m.b'] = El(angle=0.5, l=4.0)"]
     for ex_s in ["q1->k1*2+a", "m.b->angle/q1->l", "sin(q1->k1)+b", "q1->k1^2*m.b->l", "a*b", "atan2(q1->l,a)-m.b->angle"]:
         for how in ("vr['res'] = dexpr(S)", "dexpr('res = ' + S)"):
             m_, v_, e_, vr_, er_, dexpr, iexpr = aenv["mkattr"]()
-            loc = dict(vr=vr_, er=er_, dexpr=dexpr, S=ex_s)
+            loc = dict(vr=vr_, er=er_, dexpr=dexpr, S=ex_s, El=aenv["El"])
             key = f"attr-mode {ex_s} via {how}"
             scr = PRELUDE + ATTR_SRC + f"m, v, e, vr, er, dexpr, iexpr = mkattr()\nS = {ex_s!r}\n{how}\nassert v['res'] == iexpr(S), (v['res'], iexpr(S))\n" + \
                 "".join(f"{c}\nassert v['res'] == iexpr(S), ({c!r}, v['res'], iexpr(S))\n" for c in achanges)
